@@ -20,7 +20,7 @@ from .. import core, par
 MANIFEST = dict(
     text="Proof (partial): over a line-by-line Lean model of model_inference.py, for ALL inputs: header_roundtrip (one annotated header name:type=default — every name the syntax can carry, every basic/list/List[T] type with T nested to any depth, every default of the family — is read back as exactly that name, type and default), infer_render_flat_partial (every family schema written with one header per field, any number of fields, is inferred back exactly), infer_cells_independent; the full statement C18_full (records, indexed lists with per-index defaults, lists of records, any depth) is stated in Lean, kernel-checked on nested instances of depth 1-3 (nested_instances) and checked against the real code on thousands of generated nested schemas per run; one kernel-checked negative witness per clause of InFamily. Tie: Lean infer vs real model_from_headers (walk of __fields__: names, types, defaults) on rendered schemas in two spellings and on a malformed-header stream. Direct oracle: inferred model vs explicit pydantic twin on generated rows through the real RowParser/CellParser, plus the ContentIndexParser fallback end to end.",
     ref="§5 C18",
-    note="Partial: the nested case of infer_render is not proved in general (C18_full is visible in Props/C18.lean); row parsing (RowParser) is not modelled for C18, equality of row.dict() is established on the real code for generated rows. Trusts: Lean kernel (axioms audited each run), the differential harness and Driver JSON codec, pydantic v1 create_model/field defaults, CPython int()/str.split/strip as modelled (ASCII digits; digit strings with '_' or Unicode digits answered 'unsupported' and skipped by the tie). Known finding F-C18-a: a default containing '.' is cut at the dot.",
+    note="Partial: the nested case of infer_render is not proved in general (C18_full is visible in Props/C18.lean); row parsing (RowParser) is not modelled for C18, equality of row.dict() is established on the real code for generated rows. Trusts: Lean kernel (axioms audited each run), the differential harness and Driver JSON codec, pydantic v1 create_model/field defaults, CPython int()/str.split/strip as modelled (ASCII digits; digit strings with '_' or Unicode digits answered 'unsupported' and skipped by the tie). Former finding F-C18-a (a default containing '.') was fixed in /repo; dotted defaults are in the main stream.",
     technique="Lean 4 proof (string/annotation lemmas, induction on the field list) + kernel-checked nested instances + model/code correspondence + differential oracle against an explicit pydantic twin",
 )
 
